@@ -67,13 +67,17 @@ pub enum Family {
     Const,
     /// x
     Linear,
+    /// tanh((x - x0) / w): finite and *different* for w = +0 and w = -0 (the step flips), the
+    /// one family whose value depends on the sign of a zero parameter. Not in PARAMETRIC: it
+    /// replaces a two-parameter function in a hash-selected subset of scenarios
+    TanhStep,
 }
 
 impl Family {
     pub fn arity(self) -> usize {
         match self {
             Family::ExpTau | Family::ExpRate | Family::Rational => 1,
-            Family::Gauss | Family::DampCos | Family::DampSin => 2,
+            Family::Gauss | Family::DampCos | Family::DampSin | Family::TanhStep => 2,
             Family::PhaseCos => 3,
             Family::Cubic4 => 4,
             Family::ExpQuad5 => 5,
@@ -248,6 +252,10 @@ pub enum Op {
     /// query the accessors of the `FitResult` returned by the last fit again (the problem
     /// inside it may have been updated since through the public `problem` field)
     ResultView,
+    /// `count` successful parameter updates in a row on the one problem object, cycling through
+    /// `alphas` (state that only matters after very many operations: counters, ring buffers,
+    /// histories with a capacity)
+    Marathon { count: u32, alphas: Vec<Vec<Fx>> },
 }
 
 /// one decision of the simulated work-stealing pool per `join`
